@@ -154,7 +154,8 @@ def shards(tier):
         spines = SPINE_T
     for tl in tails:
         for pi in range(len(pstr_prefixes())):
-            sh.append(("pstr", tl, pi))
+            for ra in R_PSTR:
+                sh.append(("pstr", tl, pi, ra))
     na = len(ATOM_FAM)
     for i in range(0, na, 4):
         sh.append(("atoms", i, min(na, i + 4)))
@@ -254,7 +255,7 @@ def gen(shard, tier):
                                 yield ({"fam": "pairs", "a": T.tj(b), "b": T.tj(a), "ra": rb, "rb": ra},
                                        pair_goal(pb, tb, pa, ta), b, a, nt)
     elif kind == "pstr":
-        _, tl, pi = shard
+        _, tl, pi, only_ra = shard
         P = pstr_prefixes()[pi]
         tail = tail_term(tl)
         pairs = []
@@ -273,6 +274,8 @@ def gen(shard, tier):
             va = variants(a, R_PSTR, "_A")
             vb = variants(b, R_PSTR, "_B")
             for (ra, pa, ta) in va:
+                if ra != only_ra:
+                    continue
                 for (rb, pb, tb) in vb:
                     yield ({"fam": "pstr", "a": T.tj(a), "b": T.tj(b), "ra": ra, "rb": rb},
                            pair_goal(pa, ta, pb, tb), a, b, True)
@@ -361,13 +364,25 @@ def sig_of(case, vk, a, b):
     fam = case["fam"]
     if fam == "atoms":
         cl = "%s/%s" % (case["form"], "nonascii" if any(ord(c) > 127 for c in case["a1"] + case["a2"]) else "ascii")
+    elif fam == "pstr":
+        sa, _ = T.char_run(a)
+        sb, _ = T.char_run(b)
+        if sa == sb:
+            rel, short = "equal", "-"
+        elif sb.startswith(sa):
+            rel, short = "prefix", case["ra"]
+        elif sa.startswith(sb):
+            rel, short = "prefix", case["rb"]
+        else:
+            rel, short = "mismatch", "-"
+        cl = "%s/%s rel=%s short=%s" % (T.kind(a), T.kind(b), rel, short)
     else:
         cl = "%s/%s" % (T.kind(a), T.kind(b))
     return "%s %s via %s/%s: %s" % (fam, cl, case.get("ra", "-"), case.get("rb", "-"), vk)
 
 
 def run_pairs(w, shard, tier, acc):
-    for batch in px.chunked(gen(shard, tier), 400):
+    for batch in px.chunked(gen(shard, tier), 100 if shard[0] == "pstr" else 400):
         rs = px.run_goals(w, [g for (_, g, _, _, _) in batch])
         for (case, g, a, b, nt), r in zip(batch, rs):
             label, vk, exp, obs = judge(r, a, b)
